@@ -1,3 +1,4 @@
+#include <hgraph/util/verif_hooks.h>
 #include <hgraph/runtime/push_source_node.h>
 
 #include <hgraph/runtime/executor.h>
@@ -187,6 +188,7 @@ namespace hgraph
                 values.pop_front();
                 result.more_pending = !values.empty();
                 lock.unlock();
+                HGRAPH_VERIF_POINT("ps.pop.after_unlock");
                 capacity_available.notify_one();
                 return result;
             }
@@ -396,6 +398,7 @@ namespace hgraph
 
                 const PushSourceSendResult result =
                     policy_.ops_->try_send_impl(policy_.context_, storage_, std::move(value));
+                HGRAPH_VERIF_POINT("ps.send.after_admission");
                 if (result.accepted && result.wake_required)
                 {
                     push_engine_.mark_push_update_pending();
@@ -421,6 +424,7 @@ namespace hgraph
                 {
                     return false;
                 }
+                HGRAPH_VERIF_POINT("ps.send.after_admission");
                 if (result.wake_required)
                 {
                     push_engine_.mark_push_update_pending();
@@ -913,6 +917,7 @@ namespace hgraph
             void *storage = policy_storage(context, view.data());
             const bool more_pending = detail::PushSourcePolicyAccess::emit_next(
                 context.policy, storage, view.output(evaluation_time));
+            HGRAPH_VERIF_POINT("ps.eval.after_emit");
             if (more_pending)
             {
                 view.graph().root().executor().push_queue_engine().mark_push_update_pending();
